@@ -63,8 +63,15 @@ C09OK(rec) ==
             [] rec.op = "swap"    -> post = pre
             [] rec.op = "stat"    -> post = pre /\ rec.size = pre.count /\ rec.capacity = pre.cap
             [] OTHER -> FALSE
+\* C16: with the allocator failing, reserve and shrink quietly do nothing, growth aborts,
+\* the vector holds what it held (C09OK states exactly that for rec.fail)
+C16OK(rec) == (rec.op \in {"reserve", "resize", "shrink"} /\ rec.fail) =>
+                 /\ C09OK(rec)
+                 /\ rec.out = "ok" => (ToSt(rec.post).count = (IF rec.op = "resize" THEN rec.t.n ELSE ToSt(rec.pre).count))
+                 /\ (rec.out = "ok" /\ \E k \in 1..Len(rec.ev) : rec.ev[k][1] = "allocfail") => ToSt(rec.post) = ToSt(rec.pre)
 VARIABLE i
 Judge(rec) ==
+    /\ (Level # 2 \/ C16OK(rec) \/ PrintT(<<"L2FAIL", "C16", rec.id>>))
     /\ (Level # 2 \/ C09OK(rec) \/ PrintT(<<"L2FAIL", "C09", rec.id>>))
     /\ (Level # 1 \/ StepOK(rec) \/ PrintT(<<"L1DRIFT", "vec", rec.id>>))
 TInit == i = 1
